@@ -527,6 +527,7 @@ OBLIGATIONS = [
     ('C14cmpM', 'M', 'Chk.C14cmp', 'modelEntries'),
     ('C16cast', 'Q', 'Chk.C16cast', 'quantityEntries'),
     ('C17access', 'Q', 'Chk.C17access', 'quantityEntries'),
+    ('C10scale', 'Q', 'Chk.C10scale', 'quantityEntries'),
     ('C20uninitQ', 'Q', 'Chk.C20uninitStrict', 'quantityEntries'),
     ('C20uninitU', 'U', 'Chk.C20uninitStrict', 'unitEntries'),
     ('C20uninitM', 'M', 'Chk.C20uninit', 'modelEntries'),
